@@ -2,7 +2,7 @@ import Lean.Data.Json
 import Eliot.Conc.Ctx
 /-! Line-protocol driver for the context model (C05).
 in : {"codes":[[stmt…]…], "sched":[u…]}
-     stmt: ["enter",o] ["exit"] ["log",o] ["create",o] ["with",h] ["ctx",h] ["thread",v] ["task",v] ["join",v]
+     stmt: ["enter",o] ["exit"] ["log",o] ["create",o] ["remote",o] ["with",h] ["ctx",h] ["thread",v] ["task",v] ["join",v]
 out: {"log":[{"unit","occ","kind","parent"}…]  (oldest first),
       "trace":[{"u","ok","before","after"}…]     (one per schedule pick: enabled?, unit's own ctx before/after),
       "done":[bool per unit], "seq":[records of the sequential reference run]} -/
@@ -17,6 +17,7 @@ def parseStmt (j : Json) : Except String Stmt := do
   | "exit" => pure .exit
   | "log" => Stmt.log <$> x.getNat?
   | "create" => Stmt.create <$> x.getNat?
+  | "remote" => Stmt.remote <$> x.getNat?
   | "with" => Stmt.withOf <$> x.getNat?
   | "ctx" => Stmt.ctxOf <$> x.getNat?
   | "thread" => Stmt.spawnThread <$> x.getNat?
